@@ -203,7 +203,8 @@ pub fn run_one(prop: &str, rep: &mut Report, h: &Hist) -> Option<(CRun, crate::r
     for e in &run.events {
         rep.count(&format!("flush_{:?}", e.flush));
     }
-    if pending > 0 || saved > 0 {
+    // (other properties that reuse this driver count their own notion of non-trivial)
+    if prop == "C02" && (pending > 0 || saved > 0) {
         let mut hsh = Hasher::new();
         hsh.bytes(&h.plain).u64(h.cfg.index()).u64(h.api as u64);
         for s in &h.steps {
